@@ -10,6 +10,7 @@ import (
 
 	ocr2keepersv3 "github.com/smartcontractkit/chainlink-automation/pkg/v3"
 	ocr2keepers "github.com/smartcontractkit/chainlink-common/pkg/types/automation"
+	"github.com/smartcontractkit/libocr/offchainreporting2plus/ocr3types"
 )
 
 // C04 — Reports partition agreed performables within batch, gas and upkeep limits.
@@ -142,7 +143,22 @@ func c04Run(t *testing.T, in c04Input) c04Impl {
 			node.Enc.Take()
 		}
 	}
-	reports, err := node.Plugin.Reports(context.Background(), 7, raw)
+	// part of the agreed work is already in flight on this node (it accepted a report carrying it earlier): Reports
+	// must not care — what is reported is a function of the outcome alone
+	if k := len(in.Agreed) / 3; k > 0 {
+		if ab, err := node.Enc.Encode(fromJCRs(in.Agreed[:k])...); err == nil {
+			node.Plugin.ShouldAcceptAttestedReport(context.Background(), 6, ocr3types.ReportWithInfo[pluginInfo]{Report: ab})
+			node.Enc.Take()
+		}
+	}
+	// … nor about the deadline of the context it is called with (in every third case it has already passed)
+	rctx := context.Background()
+	if len(raw)%3 == 0 {
+		var cancel context.CancelFunc
+		rctx, cancel = context.WithDeadline(context.Background(), time.Now().Add(-time.Second))
+		defer cancel()
+	}
+	reports, err := node.Plugin.Reports(rctx, 7, raw)
 	calls := node.Enc.Take()
 	// … and builds reports for yet another outcome afterwards: what was returned above must stay what it was
 	if len(in.Agreed) > 0 {
@@ -230,6 +246,19 @@ func c04Edge() []c04Input {
 			in.Agreed = append(in.Agreed, toJCR(res))
 		}
 		out = append(out, in)
+	}
+	// huge allocations (the property's domain ends below 2^62) whose uint64 TOTAL over the outcome wraps although every
+	// single one is over the limit: each must travel alone
+	for _, spec := range []struct {
+		k   int
+		gas uint64
+	}{{4, 1<<62 - 1}, {4, 1<<62 - 300_000}, {8, 1<<61 - 300_000}, {3, 1<<62 - 1}, {5, 1<<62 - 1}, {16, 1<<60 - 300_000}} {
+		gs := make([]uint64, spec.k)
+		for i := range gs {
+			gs[i] = spec.gas
+		}
+		out = append(out, mk(c04Cfg{10, 5_300_000, 300_000}, gs...))
+		out = append(out, mk(c04Cfg{0, 0, 0}, gs...))
 	}
 	// 100 performables that each exceed the limit: exactly 100 reports allowed
 	big := make([]uint64, 100)
